@@ -28,6 +28,12 @@ def _regexes(rng, modules):
     out.append(a + "$")                                     # one anchored name
     out.append(a)                                           # prefix: the name and everything it starts
     out.append(f"({a}|{b})$")                               # alternation
+    out.append(f"{a}$|{b}$")                                # ungrouped top-level alternation
+    out.append(f"zzz_none|{b}")                             # ... whose first alternative matches nothing
+    out.append(f"(?:{b})$")                                 # non-capturing group
+    out.append(f"(?i){a.upper()}$")                         # inline flag
+    out.append(f"(?={a}){a}$")                              # look-ahead
+    out.append(".*")                                        # everything
     n = rng.choice(names)
     if len(n) > 2:
         out.append(re.escape(n[:-1]) + "[a-z]$")            # character class for the last letter
@@ -86,6 +92,13 @@ def specs_for(ctx):
                 counts["batch"] += 1
                 ep.with_partners(rule)
         specs.append(ep.spec)
+        # the same laws with names that are string prefixes / substrings of their siblings (named filters only)
+        ep2 = RuleEpisode(w, render=rng.choice(["adv", "adv2"]))
+        for rule in rc.sampled_rules(rng, mods, 14, max_batch=3, strict_bias=0.3):
+            if len(rule["subs"]) > 1 or len(rule["objs"]) > 1:
+                counts["batch"] += 1
+                ep2.with_partners(rule)
+        specs.append(ep2.spec)
     return specs, {"random_worlds": n_worlds, "generated": counts}
 
 
